@@ -254,7 +254,7 @@ def _check_file(text, exp, path):
         return float("nan") if v is None else _tok(v[col])
     for name, arr in (("obs", inp.obs), ("fcst", inp.fcst), ("pit", inp.pit)):
         if name not in exp["data_cols"]:
-            if arr is not None and name != "pit":
+            if arr is not None:
                 return "%s present although the file has no such column" % name
             continue
         if arr is None:
